@@ -4,9 +4,11 @@ import (
 	"bytes"
 	"fmt"
 	"go/ast"
+	"go/build/constraint"
 	"go/scanner"
 	"go/token"
 	"os"
+	"sort"
 
 	"golang.org/x/tools/go/packages"
 )
@@ -158,5 +160,81 @@ func compareOutside(key string, sp *packages.Package, sf *ast.File, sfset *token
 			return res
 		}
 	}
+	return res
+}
+
+// compareConstraints checks, for every assignment of the tags that occur, that the generated file
+// is selected exactly when the source file would be selected with the cff tag flipped.
+func compareConstraints(key string, sf, gf *ast.File) FileCmp {
+	res := FileCmp{Key: key}
+	parse := func(f *ast.File) ([]constraint.Expr, []constraint.Expr) {
+		var gb, pb []constraint.Expr
+		for _, cg := range f.Comments {
+			if cg.Pos() >= f.Package {
+				break
+			}
+			for _, c := range cg.List {
+				e, err := constraint.Parse(c.Text)
+				if err != nil {
+					continue
+				}
+				if constraint.IsGoBuild(c.Text) {
+					gb = append(gb, e)
+				} else {
+					pb = append(pb, e)
+				}
+			}
+		}
+		return gb, pb
+	}
+	sg, sp := parse(sf)
+	gg, gp := parse(gf)
+	tags := map[string]bool{}
+	collect := func(es []constraint.Expr) {
+		for _, e := range es {
+			e.Eval(func(t string) bool { tags[t] = true; return true })
+			e.Eval(func(t string) bool { tags[t] = true; return false })
+		}
+	}
+	collect(sg)
+	collect(sp)
+	collect(gg)
+	collect(gp)
+	var names []string
+	for t := range tags {
+		names = append(names, t)
+	}
+	sort.Strings(names)
+	if len(names) > 10 {
+		res.Bad = "too many tags"
+		return res
+	}
+	all := func(es []constraint.Expr, asg map[string]bool) bool {
+		for _, e := range es {
+			if !e.Eval(func(t string) bool { return asg[t] }) {
+				return false
+			}
+		}
+		return true
+	}
+	for _, pair := range [][2][]constraint.Expr{{sg, gg}, {sp, gp}} {
+		if (len(pair[0]) == 0) != (len(pair[1]) == 0) {
+			res.Bad = "a constraint syntax present in the source is missing in the generated file (or vice versa)"
+			return res
+		}
+		for m := 0; m < 1<<len(names); m++ {
+			asg, flipped := map[string]bool{}, map[string]bool{}
+			for i, n := range names {
+				asg[n] = m&(1<<i) != 0
+				flipped[n] = asg[n]
+			}
+			flipped["cff"] = !asg["cff"]
+			if all(pair[1], asg) != all(pair[0], flipped) {
+				res.Bad = fmt.Sprintf("under %v the generated file is selected=%v but the source with cff flipped is selected=%v", asg, all(pair[1], asg), all(pair[0], flipped))
+				return res
+			}
+		}
+	}
+	res.Key = fmt.Sprintf("%s (%d tags, %d assignments)", key, len(names), 1<<len(names))
 	return res
 }
